@@ -19,7 +19,7 @@ from hsim.worlds.udp import UdpWorld
 PROPERTY = "C06"
 BYTE_EXACT = False
 CHUNK = {"quick": 24, "thorough": 60}
-PROBES = ["corrupt_forwarded", "corrupt_discarded", "proxy_originated_in_window", "garbage_between_valid_same_flow", "two_sessions_same_sim", "same_ip", "reopen_after_close",
+PROBES = ["reconnected_session_forwarded", "corrupt_forwarded", "corrupt_discarded", "proxy_originated_in_window", "garbage_between_valid_same_flow", "two_sessions_same_sim", "same_ip", "reopen_after_close",
           "spontaneous_emission", "packetack_swallowed", "unjudged_after_close", "late_region_registered",
           "disconnect_midstream", "eager_parsing"]
 COMPONENTS = {
@@ -128,6 +128,12 @@ def gen_plan(rng: random.Random, tier: str) -> dict:
                 regs.append(newr)
         elif x < cfg["p_garbage"] + 0.137:
             steps.append({"at": t, "op": "disconnect", "v": v})
+            if rng.random() < 0.6:
+                # ... and comes back a little later with a fresh login
+                t = round(t + rng.choice([0.01, 0.1]), 4)
+                steps.append({"at": t, "op": "reconnect", "v": v, "regions": regs[:2] if all(x < 3 for x in regs[:2]) else [0]})
+                t = round(t + 0.01, 4)
+                steps.append({"at": t, "op": "ucc", "v": v, "r": (regs[:1] or [0])[0] if regs[0] < 3 else 0})
         elif x < cfg["p_garbage"] + 0.137 + p_objsel:
             steps.append({"at": t, "op": "objsel", "v": v, "r": r, "ids": [rng.randint(1, 9) for _ in range(
                 rng.randint(1, 3))], "reliable": rng.random() < 0.5, "zerocoded": True,
@@ -179,6 +185,7 @@ def run_world(plan: dict, prop: str, byte_exact: bool, setup=None) -> RunResult:
                 res.violate("HARNESS/socks-handshake", state=viewer.state)
                 return res
             model.assoc(viewer)
+        world.ready_hooks.append(lambda viewer_: model.assoc(viewer_))
         oracle = TransparencyOracle(world, model, res, prop, byte_exact)
         driver = Driver(world, model, res)
         if setup:
@@ -240,6 +247,12 @@ def _probes(world, model, res, plan):
         res.probe("late_region_registered")
     if any(s["op"] == "disconnect" for s in plan["steps"][:-1]):
         res.probe("disconnect_midstream")
+    if len(world.sessions) > plan["cfg"]["n_viewers"]:
+        new_ports = {v.proxy_udp for v in world.viewers}
+        if any(a.assoc in new_ports and a.meta.get("expect") is not None and a.meta["expect"].kind == "forward"
+               and world.assoc_owner.get(a.assoc) is not None and world.assoc_owner[a.assoc].session_idx >= plan["cfg"]["n_viewers"]
+               for a in world.arrivals):
+            res.probe("reconnected_session_forwarded")
 
 
 def run_plan(plan: dict) -> RunResult:
